@@ -237,7 +237,9 @@ Definition add_helpers (r : registry) (l : list (str * helper_id)) : registry :=
 
 Definition probe_helpers : list (str * helper_id) :=
   [(`"dump", HDump); (`"dump2", HDump); (`"id", HId); (`"blk", HBlk); (`"cnt", HCnt);
-   (`"state", HState); (`"evalp", HEvalp); (`"fail", HFail)].
+   (`"state", HState); (`"evalp", HEvalp); (`"fail", HFail);
+   (* registry helper names need not be identifiers: a bare tag looks its raw path text up *)
+   (`"ns.id", HId); (`"math/pi", HDump)].
 
 Definition all_macros : list macro_id :=
   [M_str; M_i64; M_u64; M_f64; M_bool; M_arr; M_obj; M_null; M_json; M_vec; M_0; M_2; M_3;
